@@ -105,12 +105,12 @@ def main():
     thr = [0.5, 0.8]
     for flt in ('SizeFilter', 'PrefixFilter', 'PositionFilter', 'OverlapFilter'):
         cfg = dict(entry='filter_split', filter=flt, measure='JACCARD' if flt != 'OverlapFilter' else 'OVERLAP',
-                   nl=2 if not quick else 1, nr=2, k=3, kmin=0, thresholds=thr if flt != 'OverlapFilter' else [1, 2],
+                   nl=2 if not quick else 1, nr=2, k=3 if quick else 2, kmin=0, thresholds=thr if flt != 'OverlapFilter' else [1, 2],
                    comp_ops=['>='], allow_empty=[True, False], props=P)
         ck.e2('tables-%s' % flt, h_core.make(cfg))
     for measure in (('JACCARD',) if quick else ('JACCARD', 'COSINE', 'DICE')):
         ck.e2('subset-%s' % measure, h_core.make_subset(dict(
-            measure=measure, nl=2 if not quick else 1, nr=2, k=3, kmin=0,
+            measure=measure, nl=2 if not quick else 1, nr=2, k=3 if quick else 2, kmin=0,
             thresholds=[0.3, 0.5, 0.8], allow_empty=[True, False])))
     ck.e2('subset-stub', h_core.make_subset(dict(measure='JACCARD', nl=1, nr=2, k=2, kmin=0, kernel='contract',
                                                  allow_empty=[True])))
